@@ -612,30 +612,59 @@ fn tree(alpha: &[Op], depth: usize, violations: usize, out: &mut Vec<Vec<usize>>
     rec(alpha, &FModel::initial(), &mut vec![], depth, violations, out, undecided);
 }
 
-/// Breadth-first search over model states; every (state, operation) transition is a history to replay.
-fn bfs(alpha: &[Op], max_depth: usize, max_states: usize) -> (usize, Vec<Vec<usize>>) {
+/// Breadth-first search over model states, level by level; every (state, operation) transition is a history
+/// to replay. A level is expanded only as a whole: the search stops before a level whose expansion would take
+/// the number of expanded states beyond `max_expanded` (or at `max_depth`), so that "every state reachable by
+/// at most d successful operations has had every operation applied to it" is true for the reported d.
+struct Bfs {
+    discovered: usize,
+    expanded: usize,
+    depth_fully_expanded: usize,
+    levels: Vec<usize>,
+    stopped_by: &'static str,
+    trans: Vec<Vec<usize>>,
+}
+
+fn bfs(alpha: &[Op], max_depth: usize, max_expanded: usize) -> Bfs {
     let mut seen: HashMap<FModel, usize> = HashMap::new();
-    let mut queue: VecDeque<(FModel, Vec<usize>)> = VecDeque::new();
     seen.insert(FModel::initial(), 0);
-    queue.push_back((FModel::initial(), vec![]));
-    let mut out = vec![];
-    while let Some((m, h)) = queue.pop_front() {
-        for (i, op) in alpha.iter().enumerate() {
-            let mut m2 = m.clone();
-            let step = m2.step(op);
-            if matches!(step, Step::Undecided(_)) {
-                continue;
-            }
-            let mut h2 = h.clone();
-            h2.push(i);
-            out.push(h2.clone());
-            if matches!(step, Step::Ok(_)) && h2.len() < max_depth && seen.len() < max_states && !seen.contains_key(&m2) {
-                seen.insert(m2.clone(), h2.len());
-                queue.push_back((m2, h2));
+    let mut frontier: Vec<(FModel, Vec<usize>)> = vec![(FModel::initial(), vec![])];
+    let mut r = Bfs { discovered: 1, expanded: 0, depth_fully_expanded: 0, levels: vec![], stopped_by: "no new states", trans: vec![] };
+    let mut depth = 0;
+    while !frontier.is_empty() {
+        if depth == max_depth {
+            r.stopped_by = "depth bound";
+            break;
+        }
+        if r.expanded + frontier.len() > max_expanded {
+            r.stopped_by = "bound on expanded states (the next level is not started)";
+            break;
+        }
+        r.levels.push(frontier.len());
+        let mut next = vec![];
+        for (m, h) in frontier {
+            r.expanded += 1;
+            for (i, op) in alpha.iter().enumerate() {
+                let mut m2 = m.clone();
+                let step = m2.step(op);
+                if matches!(step, Step::Undecided(_)) {
+                    continue;
+                }
+                let mut h2 = h.clone();
+                h2.push(i);
+                r.trans.push(h2.clone());
+                if matches!(step, Step::Ok(_)) && !seen.contains_key(&m2) {
+                    seen.insert(m2.clone(), h2.len());
+                    next.push((m2, h2));
+                }
             }
         }
+        depth += 1;
+        r.depth_fully_expanded = depth;
+        frontier = next;
     }
-    (seen.len(), out)
+    r.discovered = seen.len();
+    r
 }
 
 pub fn drive(tier: &str) -> i32 {
@@ -666,8 +695,11 @@ pub fn drive(tier: &str) -> i32 {
         cases.push(json!({"g": "trap", "resume": true, "items": c}));
     }
     // explicit-state search
-    let (states, trans) = bfs(&alpha, if quick { 3 } else { 7 }, if quick { 150 } else { 4000 });
-    plan.push(json!({"group": "bfs", "model_states": states, "transitions": trans.len()}));
+    let b = bfs(&alpha, if quick { 3 } else { 7 }, if quick { 700 } else { 12000 });
+    let (states, trans) = (b.discovered, b.trans);
+    let (bfs_expanded, bfs_depth, bfs_stop) = (b.expanded, b.depth_fully_expanded, b.stopped_by);
+    plan.push(json!({"group": "bfs", "model_states_discovered": b.discovered, "model_states_expanded": b.expanded, "states_per_level": b.levels,
+        "every_state_within_this_many_successful_operations_was_expanded": b.depth_fully_expanded, "stopped_by": b.stopped_by, "transitions": trans.len()}));
     for c in trans.chunks(100) {
         cases.push(json!({"g": "bfs", "resume": false, "items": c}));
     }
@@ -702,11 +734,14 @@ pub fn drive(tier: &str) -> i32 {
         run.capped = true;
     }
     let mut ev = Evidence::new("model_checking");
-    ev.set("rule", "alphabet: for handles 1 and 2 — OPEN of {a.txt, b.txt, pre.txt (exists, two lines), nodir/x.txt (cannot be created)} FOR INPUT / OUTPUT / APPEND, OPEN FOR RANDOM LEN=4 + FIELD, PRINT # of 5 items (one with a comma, a number, one without line end, one with a character above 127), LINE INPUT #, INPUT # of one string / two strings / an INTEGER, PRINT EOF, CLOSE #h, LSET + PUT of 3 values to records 1-2, GET of records 1-2 — plus CLOSE, KILL of each name, NAME a->b, b->a, pre->b (74 operations). tree: every history of length <= 3 (thorough 4) whose prefix succeeds in the model, including the failing last operation. trap: histories of length <= 2 (thorough 3) with up to two failing operations inside, run under ON ERROR GOTO + RESUME NEXT. bfs: breadth-first search over model states (store contents, handle table with read positions), every (state, operation) transition replayed after the shortest history reaching the state. split: every byte string up to length 4 (thorough 6) over {a , blank CR LF CHR$(160)} read by INPUT #, console INPUT, LINE INPUT #, console LINE INPUT. long: the same four forms on inputs whose lines / fields have 126 .. 65536 characters (every length within one or two of 128, 256, 512, 1024, 2048, 4096, 8192, 16384, 65536) x three line-end conventions x 6 arrangements (long line first / second / twice, a long field before a comma, blanks around a field, the line end itself at the boundary and no final line end). sizes: strings of 255 .. 32767 characters through PRINT # / LINE INPUT #, 10 .. 3000 lines written in two sessions (OUTPUT then APPEND) and read back under WHILE NOT EOF by LINE INPUT # and INPUT #, RANDOM files with 40 records of 16 .. 1024 bytes written upwards, read downwards, one overwritten, two files written and read interleaved; file bytes compared with the expected content. Oracle: the printed trace, the end (normal, or the error code at the row of the failing statement; 'a file error' = any code in 50..76 where the property names no number), and the bytes of every file afterwards.");
+    ev.set("rule", "alphabet: for handles 1 and 2 — OPEN of {a.txt, b.txt, pre.txt (exists, two lines), nodir/x.txt (cannot be created)} FOR INPUT / OUTPUT / APPEND, OPEN FOR RANDOM LEN=4 + FIELD, PRINT # of 5 items (one with a comma, a number, one without line end, one with a character above 127), LINE INPUT #, INPUT # of one string / two strings / an INTEGER, PRINT EOF, CLOSE #h, LSET + PUT of 3 values to records 1-2, GET of records 1-2 — plus CLOSE, KILL of each name, NAME a->b, b->a, pre->b (74 operations). tree: every history of length <= 3 (thorough 4) whose prefix succeeds in the model, including the failing last operation. trap: histories of length <= 2 (thorough 3) with up to two failing operations inside, run under ON ERROR GOTO + RESUME NEXT. bfs: breadth-first search over model states (store contents, handle table with read positions), whole levels at a time up to the depth in bfs_depth_fully_expanded (the model's state space is infinite — files grow — so the search is bounded by depth and by the number of expanded states; a level is never expanded partially), every (state, operation) transition replayed after the shortest history reaching the state. split: every byte string up to length 4 (thorough 6) over {a , blank CR LF CHR$(160)} read by INPUT #, console INPUT, LINE INPUT #, console LINE INPUT. long: the same four forms on inputs whose lines / fields have 126 .. 65536 characters (every length within one or two of 128, 256, 512, 1024, 2048, 4096, 8192, 16384, 65536) x three line-end conventions x 6 arrangements (long line first / second / twice, a long field before a comma, blanks around a field, the line end itself at the boundary and no final line end). sizes: strings of 255 .. 32767 characters through PRINT # / LINE INPUT #, 10 .. 3000 lines written in two sessions (OUTPUT then APPEND) and read back under WHILE NOT EOF by LINE INPUT # and INPUT #, RANDOM files with 40 records of 16 .. 1024 bytes written upwards, read downwards, one overwritten, two files written and read interleaved; file bytes compared with the expected content. Oracle: the printed trace, the end (normal, or the error code at the row of the failing statement; 'a file error' = any code in 50..76 where the property names no number), and the bytes of every file afterwards.");
     ev.set("exhaustive", !run.capped);
     ev.set("plan", json!(plan));
     ev.set("states", states as u64);
     ev.set("transitions", trans.len() as u64);
+    ev.set("states_expanded", bfs_expanded as u64);
+    ev.set("bfs_depth_fully_expanded", bfs_depth as u64);
+    ev.set("bfs_stopped_by", bfs_stop);
     ev.set("traces_validated_against_impl", run.evaluations);
     ev.set("distinct_nontrivial", run.nontrivial);
     ev.assume("not decided by the property text and therefore not generated: the same file open on two handles unless both read it, KILL / NAME of an open file, NAME onto an existing file, EOF of a file not open for input, text read into a numeric variable");
